@@ -36,6 +36,11 @@ func findMatches(insts []bytecode.SearchInstruction, all bool, skip int, take in
 	for all || matchNumber < skip+take {
 		currentState := CreateState(filename, reader, fileOffset, lineNumber, columnNumber)
 		for currentState.status == INPROCESS {
+			if currentState.programCounter >= len(insts) {
+				// nothing (left) to execute, e.g. an empty command body
+				currentState.SUCCESS()
+				break
+			}
 			inst := insts[currentState.programCounter]
 			verifStep(currentState, inst)
 			currentState = matchInstruction(inst, currentState)
